@@ -336,6 +336,23 @@ def rows_fixed_size():
     return out
 
 
+def rows_other_back_end():
+    """Attributes qualified for a back end other than cpp are that back end's business: with the back end declared in
+    expected_back_ends they are accepted whatever their value, and never act as the core attribute of the same name."""
+    out = []
+    EB = '[expected_back_ends: "cpp, java"]\n'
+    out.append(("other-back-end doc example", EB + LE + '[(cpp) namespace: "foo::bar::baz"]\n[(java) namespace: "com.example.foo.bar.baz"]\nstruct Ss:\n  0 [+1]  UInt  x\n', True))
+    out.append(("other-back-end namespace only", EB + LE + '[(java) namespace: "com.example.foo"]\nstruct Ss:\n  0 [+1]  UInt  x\n', True))
+    out.append(("other-back-end undeclared", LE + '[(java) namespace: "com.example.foo"]\nstruct Ss:\n  0 [+1]  UInt  x\n', False))
+    for name, value in (("byte_order", '"Sideways"'), ("byte_order", "5"), ("requires", "5"), ("requires", "this < 5"), ("text_output", '"Maybe"'), ("whatever", "5")):
+        out.append(("other-back-end field attribute %s: %s" % (name, value), EB + LE + "struct Ss:\n  0 [+2]  UInt  x\n    [(java) %s: %s]\n" % (name, value), True))
+    for name, value in (("maximum_bits", '"four"'), ("maximum_bits", "4"), ("is_signed", "7"), ("enum_case", '"whatever"')):
+        out.append(("other-back-end enum attribute %s: %s" % (name, value), EB + "enum Ee:\n  [(java) %s: %s]\n  AA = 200\n" % (name, value), True))
+    # ... and does not satisfy a requirement for the core attribute
+    out.append(("other-back-end byte_order does not count", EB + 'struct Ss:\n  0 [+2]  UInt  x\n    [(java) byte_order: "LittleEndian"]\n', False))
+    return out
+
+
 def rows_reserved():
     e = common.emb()
     out = []
@@ -376,7 +393,7 @@ def rows_reserved():
 
 
 def all_rows(tier):
-    return rows_scalar() + rows_enum(tier) + rows_bits() + rows_arrays() + rows_byte_order() + rows_attributes() + rows_fixed_size() + rows_reserved()
+    return rows_scalar() + rows_enum(tier) + rows_bits() + rows_arrays() + rows_byte_order() + rows_attributes() + rows_fixed_size() + rows_other_back_end() + rows_reserved()
 
 
 _ROWS = {}
